@@ -21,6 +21,8 @@ Fixpoint nodup_b (l : list N) : bool :=
 
 Definition is_ns (doc : xdoc) (i : node) : bool := nkind_eqb (kind doc i) KNamespace.
 
+Definition is_none (o : option N) : bool := match o with None => true | Some _ => false end.
+
 Definition opt_eqb (o : option N) (i : N) : bool :=
   match o with Some p => p =? i | None => false end.
 
@@ -30,8 +32,9 @@ Definition row_wf_b (doc : xdoc) (i : node) : bool :=
   && forallb (in_table doc) (n_attrs r)
   && match n_nss r with Some l => forallb (in_table doc) l | None => false end
   && match n_parent r with Some p => in_table doc p && (p <? i) | None => true end
-  && forallb (fun c => opt_eqb (parent_node doc c) i) (n_children r)
-  && nodup_b (map (key doc) (n_children r))
+  && forallb (fun c => opt_eqb (parent_node doc c) i
+                       || (is_none (next_sibling doc c) && is_none (previous_sibling doc c))) (n_children r)
+  && nodup_b (map (nid doc) (n_children r))
   && match n_data r with DataErr => false | _ => true end
   && match n_name r with XNameErr => false | _ => true end
   && match n_kind r with
